@@ -521,10 +521,14 @@ VA_CTX = ["stmt", "two-live", "loop", "arg-d0", "arg-d1", "arg-d2", "arg-d3", "b
 VA_KINDS = ["alloca", "vla-char", "vla-long", "vla-2d"]
 
 
+def va_contexts(tier):
+    return VA_CTX + (["arg-d4", "arg-d5"] if tier == "thorough" else [])
+
+
 def va_cases(tier):
     cases = []
     for kind in VA_KINDS:
-        for ctx_ in VA_CTX:
+        for ctx_ in va_contexts(tier):
             for n in VA_SIZES:
                 if n == 0 and kind != "alloca":
                     continue          # a VLA whose size is not > 0 is undefined (6.7.6.2p5); counted in skipped_undefined by run()
@@ -782,8 +786,9 @@ def run_family(ctx, fam, cases, stats):
 
 def run(ctx):
     stats = {"evals": 0, "skipped": 0, "cases": 0, "judged_cases": 0, "rejected": 0}
-    fams = [("bf", bf_cases(ctx.tier)), ("cp", copy_cases(ctx.tier)), ("pa", path_cases(ctx.tier)), ("lo", local_cases(ctx.tier)),
-            ("va", va_cases(ctx.tier)), ("pi", pi_cases(ctx.tier))]
+    # small families first: if the deadline stops the run, only the tail of the big bit-field enumeration is missing
+    fams = [("cp", copy_cases(ctx.tier)), ("pa", path_cases(ctx.tier)), ("lo", local_cases(ctx.tier)),
+            ("va", va_cases(ctx.tier)), ("pi", pi_cases(ctx.tier)), ("bf", bf_cases(ctx.tier))]
     only = os.environ.get("C04_ONLY")
     for fam, cases in fams:
         if only and fam not in only.split(","):
@@ -791,7 +796,7 @@ def run(ctx):
         for c in (cases[0], cases[len(cases) // 2], cases[-1])[:2 if fam != "bf" else 3]:
             ctx.sample({"case": c.cid, "class": c.cls, "unit_head": FAMILIES[fam]([c])[0].replace(CB_DECL, "")[:400]}, limit=14)
         if fam == "va":
-            stats["skipped"] += (len(VA_KINDS) - 1) * len(VA_CTX)
+            stats["skipped"] += (len(VA_KINDS) - 1) * len(va_contexts(ctx.tier))
         run_family(ctx, fam, cases, stats)
     ctx.cover(evaluations=stats["evals"], skipped_undefined=stats["skipped"], cases=stats["cases"], distinct_nontrivial=stats["judged_cases"],
               rejected_or_crashed=stats["rejected"],
